@@ -1,0 +1,55 @@
+//go:build verif
+
+package internal
+
+import "sync/atomic"
+
+// Verification hook points (build tag `verif` only). A harness installs a
+// callback with VerifSetHook; every instrumented site calls it with its id.
+// The callback may delay or park the calling goroutine. Nothing here changes
+// the behaviour of the cache when no callback is installed.
+const (
+	vpBeforeEvent = iota + 1
+	vpExpireRecheck
+	vpBufBeforeTailCAS
+	vpBufBeforePublish
+	vpBufBeforeTokenCAS
+	vpBufDrainSlot
+	vpBufBeforeHeadStore
+	vpBufBeforeFree
+	vpSecEnq
+	vpSecDone
+	vpSFCleanup
+)
+
+// exported aliases for harness code living outside this package
+const (
+	VPBeforeEvent        = vpBeforeEvent
+	VPExpireRecheck      = vpExpireRecheck
+	VPBufBeforeTailCAS   = vpBufBeforeTailCAS
+	VPBufBeforePublish   = vpBufBeforePublish
+	VPBufBeforeTokenCAS  = vpBufBeforeTokenCAS
+	VPBufDrainSlot       = vpBufDrainSlot
+	VPBufBeforeHeadStore = vpBufBeforeHeadStore
+	VPBufBeforeFree      = vpBufBeforeFree
+	VPSecEnq             = vpSecEnq
+	VPSecDone            = vpSecDone
+	VPSFCleanup          = vpSFCleanup
+)
+
+var verifHook atomic.Pointer[func(id int)]
+
+// VerifSetHook installs (or, with nil, removes) the hook callback.
+func VerifSetHook(f func(id int)) {
+	if f == nil {
+		verifHook.Store(nil)
+		return
+	}
+	verifHook.Store(&f)
+}
+
+func verifPoint(id int) {
+	if f := verifHook.Load(); f != nil {
+		(*f)(id)
+	}
+}
